@@ -163,7 +163,7 @@ def rand_priv(rng, curve):
         return k.to_bytes(32, "big")
     if curve == "ed25519monero":
         return rng.randrange(1, ORDERS[curve]).to_bytes(32, "little")
-    return bytes(rng.randrange(256) for _ in range(32))
+    return bytes(rng.randrange(256) for _ in range(64 if curve == "ed25519kholaw" else 32))
 
 
 def pub_forms(curve, priv):
